@@ -244,7 +244,15 @@ func checkWaitGroupProtocol(c *Ctx, p *Prog, R *BusRoles, rule string) {
 				}
 				switch kind {
 				case "Add", "Go":
-					adds = append(adds, site{outermost(f), p.Pos(in.Pos())})
+					af := outermost(f)
+					// keyed by the API function that does the counting, not by the helper
+					// the statement sits in
+					for _, g := range reachFuncs(p, R.PublishFn, PkgBus) {
+						if g == af {
+							af = R.PublishFn
+						}
+					}
+					adds = append(adds, site{af, p.Pos(in.Pos())})
 				case "Wait":
 					waits = append(waits, site{outermost(f), p.Pos(in.Pos())})
 				}
